@@ -408,7 +408,21 @@ fn check_sprite(tape: &[u32]) -> CheckResult {
     c.max_cel = 4;
     c.tile_aligned = false;
     c.max_frames = 4;
-    let s = build_sprite(&mut t, &c);
+    let mut s = build_sprite(&mut t, &c);
+    if t.chance(1, 30) {
+        // hundreds of tags, each with its own record (counters wider than 8 bits)
+        let n = 256 + t.below(120) as usize;
+        let tags = s.tags.get_or_insert_with(Vec::new);
+        while tags.len() < n {
+            let i = tags.len();
+            tags.push(Tag { from: i as u16, to: i as u16, dir: 0, repeat: 0, name: format!("t{}", i) });
+        }
+        let k = n - t.below(3) as usize;
+        while s.tag_user_data.len() < k {
+            let i = s.tag_user_data.len();
+            s.tag_user_data.push(UserData { text: Some(format!("tag-record-{}", i)), color: None });
+        }
+    }
     let plan = build_plan(&mut t);
     let enc = encode(&s, &plan);
     let detail = || json!({"model": super::c01::summarize(&s), "plan": format!("{:?}", plan), "input_hex": if enc.bytes.len() < 8000 { hex(&enc.bytes) } else { String::new() }});
